@@ -84,7 +84,19 @@ fn core_tfm_score(rows: Vec<Vec<f32>>, background: Vec<f32>, protein: bool, p: f
     }
 }
 
+/// Silence (true) or restore (false) the default panic hook: a caught Rust panic then no longer prints
+/// its message / backtrace to stderr (pyo3 still turns it into a PanicException carrying the message).
+#[pyfunction]
+fn quiet_panics(on: bool) {
+    if on {
+        std::panic::set_hook(Box::new(|_| {}));
+    } else {
+        let _ = std::panic::take_hook();
+    }
+}
+
 pub fn init(_py: Python<'_>, m: &Bound<'_, PyModule>) -> PyResult<()> {
+    m.add_function(wrap_pyfunction!(quiet_panics, m)?)?;
     m.add_function(wrap_pyfunction!(force, m)?)?;
     m.add_function(wrap_pyfunction!(f32r, m)?)?;
     m.add_function(wrap_pyfunction!(core_meme_pvalue, m)?)?;
